@@ -1,11 +1,7 @@
 import sys, warnings; sys.path.insert(0,'/verif'); warnings.simplefilter('ignore')
-from checks import c03, common_models as cm
-from symx import core, loader
-from symx.explore import Explorer
-loader.install()
-def setup():
-    core.CTX.strict=True; core.CTX.merge_sign=True
-    return cm.FitEnv('LinearModel',(3,1,2),gemini='mi',batch_size=None,mlcl=True)
-ex=Explorer()
-for out,pc,tr in ex.run(lambda env: env.run_fit(), setup):
-    print(getattr(out,'tb',out)); break
+from checks import c13
+r=c13.job_perm('W-ovo',2,3,empty_col=True)
+for o in r['obligations'][:6]: print(o)
+print(r['violations'])
+rep={"kind":"perm","label":"W-ovo","n":2,"K":3,"sigma":[0,1],"tau":[2,0,1],"empty_col":True,"model":{"p_0_0":"1/3","p_1_0":"3/4"}}
+print(c13.replay(rep,verbose=True))
